@@ -274,3 +274,41 @@ def refresh_obligation(prog, rule, cname, mname):
                            f"caller's array: after an in-place edit of that array the guard compares it with itself and the stale value is kept")
     return struct_ob(rule, qual(ci, fn), not why, "; ".join(why[:3]), ci.module.relpath, fn.lineno,
                      slots={"maintained": sorted(anyw), "conditional": sorted({a for a, _ in cond})})
+
+
+def path_statements(stmts, assume):
+    """Statements executed, in order, when every test of the form `<name> is None` / `<name> is not None` / `not ...` over the
+    names in `assume` ({name: True if it is None else False}) is decided accordingly.  Undecided `if` statements are returned
+    as they are (not entered).  Stops at the first return / raise reached on the path."""
+    out = []
+
+    def decide(test):
+        if isinstance(test, ast.UnaryOp) and isinstance(test.op, ast.Not):
+            d = decide(test.operand)
+            return None if d is None else not d
+        if isinstance(test, ast.Compare) and len(test.ops) == 1 and isinstance(test.left, ast.Name) and test.left.id in assume \
+                and isinstance(test.comparators[0], ast.Constant) and test.comparators[0].value is None:
+            if isinstance(test.ops[0], ast.Is):
+                return assume[test.left.id]
+            if isinstance(test.ops[0], ast.IsNot):
+                return not assume[test.left.id]
+        return None
+
+    def walk(block):
+        for st in block:
+            if isinstance(st, ast.If):
+                d = decide(st.test)
+                if d is True:
+                    if walk(st.body):
+                        return True
+                    continue
+                if d is False:
+                    if walk(st.orelse):
+                        return True
+                    continue
+            out.append(st)
+            if isinstance(st, (ast.Return, ast.Raise)):
+                return True
+        return False
+    walk(stmts)
+    return out
